@@ -732,6 +732,15 @@ def execute(plan: dict, root: str, resume: Run | None = None, only: int | None =
                     }
                 except AttributeError as e:
                     raise HarnessError(f"seam missing: {e}")
+                # the simulator follows what the solver really does (a solver that turns out to
+                # save synchronously must not have its commit threads parked: main waits for them);
+                # whether that is what the plan asked for is judged by the C10 oracle
+                actual_async = bool(getattr(solver, "enable_async_checkpointing", ctx.asyn))
+                if actual_async != ctx.asyn:
+                    h["events"].append(["async_mode_differs_from_plan", actual_async])
+                    ctx.asyn = actual_async
+                    with SIM.cv:
+                        SIM.block = actual_async
                 ctx.instrument(solver)
                 if ctx.crash and ctx.crash["seam"][0] == "construct":
                     if not ctx.snap_taken:
